@@ -231,7 +231,11 @@ func NewUniverse(t *rapid.T, o Opts) *Universe {
 			f := u.Funcs[rapid.IntRange(0, len(u.Funcs)-1).Draw(t, "dupfidx")]
 			switch rapid.IntRange(0, 4).Draw(t, "fattr") {
 			case 4:
-				f.Filename = "other/" + strings.TrimLeft(f.Filename, "/") // same base name, another directory
+				if f.Filename == "" {
+					f.Filename = "other.go"
+				} else {
+					f.Filename = "other/" + strings.TrimLeft(f.Filename, "/") // same base name, another directory
+				}
 			case 0:
 				f.Name += "2"
 			case 1:
